@@ -18,6 +18,9 @@ func init() {
 var policyUniverse = [][]string{{}, {"x"}, {"-f", "x"}, {"-z"}, {"-i=zz"}, {"-i", "5"}, {"-o"}, {"zz"}, {"7"}, {"-i=zz", "-i=5"}, {"-"}}
 
 func runPolicy(c *Ctx) {
+	if c.Shard == 0 && c.Begin("policy-versioned") {
+		policyVersioned(c)
+	}
 	if c.Shard == 0 && c.Begin("policy-rerun") {
 		policyRerun(c)
 		c.Note("second runs", "shape 0 with declaration-free sub-commands: a first accepted Run, then on the same instance a second Run over {rejections at c1 / d1 / c2, one accepted control} x every policy assignment of the path")
@@ -188,12 +191,45 @@ func replayPolicy(c *Ctx, cs Case) {
 	for _, x := range cs["pols"].([]interface{}) {
 		pols = append(pols, int(x.(float64)))
 	}
-	policyCase(c, cInt(cs, "shape"), shape, assign, pols, cStrs(cs, "args"))
+	ver, _ := cs["version_declared"].(bool)
+	policyCaseV(c, cInt(cs, "shape"), shape, assign, pols, cStrs(cs, "args"), ver)
 }
 
 func policyCase(c *Ctx, si int, shape *tnode, assign, pols []int, args []string) {
+	policyCaseV(c, si, shape, assign, pols, args, false)
+}
+
+// version: the root also declares Version("v version"); a version flag that is not the first argument is no request
+var policyVersionArgvs = [][]string{{"-z", "-v"}, {"x", "y", "-v"}, {"x", "-v"}, {"-f", "--version"}, {"-i=zz", "-v"}, {"zz", "--version"}, {"x", "-v", "c1"}, {"-i", "5", "-v", "c1", "x"}, {"--", "-v", "x", "y"}}
+
+func policyVersioned(c *Ctx) {
+	shape := treeShapes(false)[0]
+	slots := numberSlots(shape)
+	n := 0
+	for _, rootKind := range []int{3, 6} {
+		assign := make([]int, len(slots))
+		for i := range assign {
+			assign[i] = 3
+		}
+		assign[shape.slot] = rootKind
+		for pol := 0; pol < 3; pol++ {
+			pols := make([]int, len(slots))
+			for i := range pols {
+				pols[i] = -1
+			}
+			pols[shape.slot] = pol
+			for _, av := range policyVersionArgvs {
+				n++
+				policyCaseV(c, 0, shape, assign, pols, av, true)
+			}
+		}
+	}
+	c.Note("version flag declared", fmt.Sprintf("%d cases: shape 0, root specs %q / %q, the three root policies, argvs %v (the version flag never in first position)", n, lvlKinds[3].spec, lvlKinds[6].spec, policyVersionArgvs))
+}
+
+func policyCaseV(c *Ctx, si int, shape *tnode, assign, pols []int, args []string, version bool) {
 	rootPol := pols[0]
-	app, tr := buildTree(shape, treeOpts{kinds: assign, pols: pols, rootPol: rootPol, hooks: true})
+	app, tr := buildTree(shape, treeOpts{kinds: assign, pols: pols, rootPol: rootPol, hooks: true, version: version})
 	o := runIsolated(func() error { return app.Run(append([]string{"app"}, args...)) })
 	r := route(shape, assign, args)
 	c.Count("evaluations", 1)
@@ -202,7 +238,12 @@ func policyCase(c *Ctx, si int, shape *tnode, assign, pols []int, args []string)
 		return
 	}
 	key := fmt.Sprintf("tree=%s specs=%s policies=%s args=%q", shapeText(shape), specsText(shape, assign), polsText(shape, pols), args)
-	cs := func() Case { return Case{"shape": si, "kinds": assign, "pols": pols, "args": args} }
+	if version {
+		key += " Version(\"v version\") declared on the root"
+	}
+	cs := func() Case {
+		return Case{"shape": si, "kinds": assign, "pols": pols, "args": args, "version_declared": version}
+	}
 	obs := fmt.Sprintf("calls=%v returned=%v err=%v panicked=%v panicval=%v exits=%v", tr.calls, o.Returned, o.Err, o.Panicked, safeSprint(o.PanicVal), o.Exits)
 	if r.target != nil {
 		// accepted: returns nil, no exit, no panic; Befores, Action, Afters of the path in nesting order
